@@ -295,8 +295,8 @@ func TestC26(t *testing.T) {
 		"in ELF header / program header table / section header table, class/endianness/machine bytes, offset/size "+
 		"overflow, empty file, text file, directory, missing file). Every input runs through the in-process start-up "+
 		"pipeline of main.go (no panic allowed); a tenth of them and argument vectors of length 0-4 run through the real "+
-		"binary under a pseudo terminal: verdict = UI entered and exit 0 after quit, or exit 1 with a line starting "+
-		"'mltwist:'. Files whose loadable bss exceeds 8 MiB are excluded (known finding huge-memsz, or outside the "+
+		"binary under a pseudo terminal: verdict = UI entered and exit 0 after quit, or a non-zero exit status with an error message on stderr and no "+
+		"Go panic/fatal trace. Files whose loadable bss exceeds 8 MiB are excluded (known finding huge-memsz, or outside the "+
 		"memory budget). non-trivial = corrupted file that passes elf.Open (reaches the tool's own code); distinct by bytes")
 	defer col.Flush()
 	bin, berr := mltwistBinary()
@@ -324,7 +324,9 @@ func TestC26(t *testing.T) {
 			return ""
 		case res.ExitCode == 0:
 			return fmt.Sprintf("%s: exit status 0 without entering the UI; output %q", what, tail(res.Stdout))
-		case res.ExitCode == 1 && bytes.HasPrefix(res.Stderr, []byte("mltwist:")) && !bytes.Contains(res.Stderr, []byte("goroutine ")):
+		case res.ExitCode != 0 && len(bytes.TrimSpace(res.Stderr)) > 0 && !bytes.Contains(res.Stderr, []byte("goroutine ")) &&
+			!bytes.Contains(res.Stderr, []byte("panic:")) && !bytes.Contains(res.Stderr, []byte("fatal error:")):
+			// non-zero status with an error message (the wording is not prescribed)
 			return ""
 		}
 		return fmt.Sprintf("%s: exit status %d, stderr %q, terminal output tail %q", what, res.ExitCode, tail(res.Stderr), tail(res.Stdout))
@@ -359,8 +361,11 @@ func TestC26(t *testing.T) {
 			if msg != "" {
 				t.Skip(msg)
 			}
-			if res.ExitCode != 1 || !bytes.HasPrefix(res.Stderr, []byte("mltwist:")) {
-				t.Fatalf("arguments %q: exit status %d stderr %q", args, res.ExitCode, tail(res.Stderr))
+			if v := verdict(res, fmt.Sprintf("arguments %q", args)); v != "" && v != "timeout" {
+				t.Fatalf("%s", v)
+			}
+			if res.ExitCode == 0 {
+				t.Fatalf("arguments %q: exit status 0", args)
 			}
 			col.Class("argv")
 			return
